@@ -19,4 +19,4 @@ Extraction "model.ml"
   gen_points c_weights c_config c_commit c_transcript_run c_transcript_spec_run
   c_ipa_create c_ipa_check c_mp_create c_mp_check c_challenge t_new
   c_divide_on_domain c_bary_coeffs c_compute_b c_batch_invert_fr c_batch_invert_fp c_inner c_msm
-  mp_read ipa_read mp_write_chunks ipa_write_chunks write_all mkR.
+  read_point read_scalar mp_read ipa_read mp_write_chunks ipa_write_chunks write_all mkR.
